@@ -13,7 +13,7 @@ from .. import meta as M
 from ..oracles import snapshot, snap_diff, json_equal
 from . import arrayhist as AH
 from . import raggedhist as RH
-from .arrayhist import Viol
+from .arrayhist import Viol, Diverged
 
 _AGEN = AH.ArrayHistory()
 _AGEN.weights = dict(append=20, iterappend=8, setitem=12, truncate=12, mode=0, reopen=6,
@@ -126,6 +126,10 @@ class Replica(Engine):
         except Viol as v:
             viol = {'oracle': v.oracle, 'signature': v.signature, 'op_index': r.idx, 'op': r.cur, 'detail': v.detail}
             emit({'step': r.idx, 'violation': v.oracle + ':' + v.signature})
+        except Diverged as dv:
+            # an append/truncate/... on either side raised where the model accepts (or the reverse): C03/C04's subject
+            r.probe('history_ended_outcome_not_this_propertys_subject')
+            emit({'step': r.idx, 'ended': str(dv)})
         return {'violation': viol, 'stats': r.stats()}
 
 
@@ -238,7 +242,15 @@ class _Run:
             if self.ragged:
                 tdt = src.dtype if dtype is None else dtype
                 cp.L = [a.astype(tdt) for a in src.L]
-                cp.atom, cp.dtype, cp.indextype = src.atom, np.dtype(tdt), 'int64'
+                # the copy's index type is not stated (pinned tree: int64; keeping the source's is as faithful):
+                # the model follows what the copy's own description says
+                try:
+                    import json as _json
+                    with open(os.path.join(path2, 'indices', 'arraydescription.json'), encoding='utf-8') as f:
+                        it = _json.load(f)['numtype']
+                except Exception:
+                    it = 'int64'
+                cp.atom, cp.dtype, cp.indextype = src.atom, np.dtype(tdt), it
                 cp.oracles.discard('indextype')
             else:
                 cp.model = src.model.astype(src.model.dtype if dtype is None else dtype)
